@@ -5,8 +5,64 @@ import json, os
 import vlib
 from checks import query_common as qc
 
+UQ = """SPECIFICATION Spec
+CONSTANTS Docs = {{1,2,3}} Vals = {{1,2}} MaxSteps = {steps} Composite = {comp} Late = {late}
+{body}
+CHECK_DEADLOCK FALSE
+"""
+
+def unique_index(run, thorough):
+    """Second clause of C07: a unique index accepts exactly the writes that leave no two live documents with the same non-null key."""
+    binary = run.build("uniqrun")
+    viol, tot = [], dict(behaviours=0, steps=0, refused_writes=0, comparisons=0)
+    for comp in ("FALSE", "TRUE"):
+        run.tlc("UniqueIndex.tla", "mc_uq_%s.cfg" % comp, workers=4, timeout=900,
+                cfg_text=UQ.format(steps=6 if thorough else 5, comp=comp, late="TRUE", body="VIEW view\nINVARIANTS UniqueWhileIndexed\nPROPERTIES RefusedChangesNothing"),
+                label="MC_UniqueIndex(composite=%s)" % comp)
+        for late in ("FALSE", "TRUE"):
+            src = os.path.join(run.tmp, "uq-%s-%s.ndjson" % (comp, late))
+            run.tlc("UniqueIndex_gen.tla", "gen_uq_%s_%s.cfg" % (comp, late), mode="simulate", workers=1, sim="num=%d" % (300 if thorough else 40), extra=["-depth", "9"], timeout=600,
+                    env={"VERIF_OUT": src}, cfg_text=UQ.format(steps=9, comp=comp, late=late, body="ACTION_CONSTRAINT ExportLeaves"), label="GEN_UniqueIndex(composite=%s,late=%s)" % (comp, late))
+            if not os.path.exists(src):
+                raise vlib.Infra("no unique-index histories exported")
+            out = os.path.join(run.tmp, "uqres-%s-%s.json" % (comp, late))
+            args = ["-beh", src, "-out", out, "-budget", "200s" if thorough else "14s"]
+            if comp == "TRUE":
+                args.append("-composite")
+            if late == "TRUE":
+                args.append("-late")
+            run.run_driver(binary, args, timeout=2000)
+            r = json.load(open(out))
+            if r.get("harness_errors"):
+                raise vlib.Infra("uniqrun: " + r["harness_errors"][0])
+            for k in tot:
+                tot[k] += r.get(k, 0) or 0
+            for v in r.get("violations") or []:
+                v["msg"] = "[unique index on %s, %s] %s" % ("(u, w)" if comp == "TRUE" else "u", "created by a step of the history" if late == "TRUE" else "present from the start", v["msg"])
+                viol.append(v)
+    if tot["refused_writes"] == 0:
+        raise vlib.Infra("no write was ever refused by the unique index (vacuous run)")
+    return viol, tot
+
 def check(run, replay):
     thorough = run.tier == "thorough"
+    if replay:
+        try:
+            rp = json.load(open(replay))
+        except Exception:
+            rp = {}
+        if isinstance(rp, dict) and rp.get("behaviour_data") and "route" in rp["behaviour_data"][0]:
+            # a unique-index history
+            ub = run.build("uniqrun")
+            out = os.path.join(run.tmp, "uqres-replay.json")
+            args = ["-beh", replay, "-out", out]
+            if "(u, w)" in rp.get("msg", ""):
+                args.append("-composite")
+            if "created by a step" in rp.get("msg", ""):
+                args.append("-late")
+            run.run_driver(ub, args, timeout=600)
+            r = json.load(open(out))
+            run.finish("model_checking", r.get("violations") or [], {"traces_validated_against_impl": 1, "samples": [["replay"]], "rule": "replay of one unique-index history"}, [])
     binary = run.build("queryrun")
     if not replay:
         qc.model_check_laws(run, thorough)
@@ -25,15 +81,20 @@ def check(run, replay):
         for v in qc.to_violations("C07", res):
             v["msg"] = "[%s] %s" % (name, v["msg"])
             viol.append(v)
+    uq = dict(behaviours=0, steps=0, refused_writes=0, comparisons=0)
+    if not replay:
+        uviol, uq = unique_index(run, thorough)
+        viol += uviol
     if executed == 0 and not viol:
         raise vlib.Infra("no case executed")
     if executed > 200 and used == 0:
         raise vlib.Infra("no executed query was served from an index (vacuous run)")
     L = [json.loads(json.loads(l)) for l in open(cases).read().strip().split("\n")[:2]]
     samples = [{"docs": c["docs"], "q": c["q"], "expect": c["expect"]} for c in L]
-    cov = {"traces_validated_against_impl": executed, "list_queries_served_from_an_index": used, "time_travel_filter_queries": tts, "samples": samples,
+    cov = {"traces_validated_against_impl": executed, "list_queries_served_from_an_index": used, "time_travel_filter_queries": tts,
+           "unique_index_histories": uq["behaviours"], "unique_index_steps": uq["steps"], "unique_index_refused_writes": uq["refused_writes"], "samples": samples,
            "index_sets": ["i asc", "i desc", "s asc", "s desc + b", "composite(s,i)", "composite(i desc,s)", "j asc", "j desc", "composite(j,s)", "a (array)", "composite(s,a)", "unique k + j + s + i + b"],
-           "rule": "QueryGen cases (see C08) executed on a node with one of 12 index sets (rotating), indexes created before the data, after the data, and with the contents reached through creates, updates and a delete; the result must equal Result(docs,q) of spec/Query.tla, which does not know about indexes"}
+           "rule": "QueryGen cases (see C08) executed on a node with one of 12 index sets (rotating), indexes created before the data, after the data, and with the contents reached through creates, updates and a delete; the result must equal Result(docs,q) of spec/Query.tla, which does not know about indexes | UniqueIndex.tla: histories of creates, updates (GraphQL, collection Save, one filtered update of all documents), deletes and a late index creation under a unique index on one field or on two, present from the start or created by a step; the real node must accept exactly the writes the specification accepts, and the live documents read back (scan, index-served filter, index-ordered) equal the specification's after every step"}
     run.finish("model_checking", viol, cov,
                ["the oracle is the index-free reference semantics; explain(type: execute) is used only to count how many queries really took the index path",
                 "array, JSON and relation indexes are covered by C09 / later rounds, not by this check"])
